@@ -10,7 +10,7 @@ CLAIMS = {
   technique="static analysis: call-graph SCC inventory + CFG path rules (edge dominance, must-precede/must-follow) on go/ssa + backward value-origin analysis of interface receivers with dominance of nil tests (R-NIL)",
   ref="DESIGN.md §4 C01"),
  "C02": dict(
-  text="Structural clauses of 'wrapping conserves every glyph': (R-GLYPHS) no function reachable from the LineWrapper entry points stores to a field of shaping.Glyph, except into a slice that the same function has just copied (make or append(nil, ...), copy-on-write): candidate, committed and input runs share glyph backing arrays; (R-ADV) every store to Glyph.XAdvance/YAdvance is followed on all paths by RecomputeAdvance/RecalculateAll, in the function or in every caller up to the exported API; (R-CUT) every run handed to the candidate line originates from the iterator, from cutRun or from processBreakOption. The two R-GLYPHS findings of the pinned tree were repaired (copy-on-write) and their reverts are part of the thorough tier. Coverage/contiguity/termination arithmetic is NOT decided.",
+  text="Structural clauses of 'wrapping conserves every glyph': (R-GLYPHS) no function reachable from the LineWrapper entry points stores to a field of shaping.Glyph, except into a slice that the same function has just copied (make or append(nil, ...), copy-on-write): candidate, committed and input runs share glyph backing arrays; (R-ADV) every store to Glyph.XAdvance/YAdvance is followed on all paths by RecomputeAdvance/RecalculateAll, in the function or in every caller up to the exported API; (R-CUT) every run handed to the candidate line originates from the iterator, from cutRun or from processBreakOption; (R-TRIM/start) the run of a line built by the single-run shortcut has its leading letter spacing trimmed on every path, as the first run of the lines built by WrapNextLine. The two R-GLYPHS findings of the pinned tree were repaired (copy-on-write) and their reverts are part of the thorough tier. Coverage/contiguity/termination arithmetic is NOT decided.",
   note="VTA call graph reachability; RunIterator implementations outside the module are not analysed",
   technique="static analysis: who-may-write over call-graph reachability, CFG must-follow with propagation to callers, value-origin check on go/ssa",
   ref="DESIGN.md §4 C02"),
